@@ -2,6 +2,7 @@
 package main
 
 import (
+	"golang.org/x/tools/go/ssa"
 	"encoding/json"
 	"flag"
 	"fmt"
@@ -122,8 +123,22 @@ func cmdRun(names []string, trace bool, workers int, mapOrder bool, maxPaths int
 	ld.Engine.Trace = trace
 	hp := ld.SSA[modPath+"/pkg/zz_verif"]
 	rc := 0
+	defer cleanupCorpus()
 	for _, n := range names {
 		fn := hp.Func(n)
+		eng := ld.Engine
+		if parts := strings.SplitN(n, ".", 2); len(parts) == 2 {
+			w := getCorpus()
+			if w.err != nil {
+				fmt.Fprintln(os.Stderr, "CORPUS-ERROR:", w.err)
+				return 2
+			}
+			if pkg := w.ld.SSA[corpusMod+"/"+parts[0]]; pkg != nil {
+				fn = pkg.Func(parts[1])
+			}
+			eng = w.ld.Engine
+			eng.Trace = trace
+		}
 		if fn == nil {
 			fmt.Fprintln(os.Stderr, "no harness", n)
 			return 2
@@ -136,7 +151,7 @@ func cmdRun(names []string, trace bool, workers int, mapOrder bool, maxPaths int
 				opts.MapOrder = true
 			}
 		}
-		res := ld.Engine.Explore(fn, opts, &st)
+		res := eng.Explore(fn, opts, &st)
 		printResult(res, &st)
 		if len(res.Violations) > 0 {
 			rc = 1
@@ -273,18 +288,77 @@ func cmdCheck(prop, tier string) int {
 		}
 		return h%11 == 0 || zero
 	}
+	corpusViolations, rcCorpus := 0, 0
+	type job struct {
+		sp   *HarnessSpec
+		eng  *sym.Engine
+		fn   *ssa.Function
+		name string
+	}
+	var jobs []job
 	for _, sp := range specs {
+		if strings.HasPrefix(sp.Name, "G:") {
+			w := getCorpus()
+			if w.err != nil {
+				fmt.Fprintln(os.Stderr, "CORPUS-ERROR:", w.err)
+				inconcl = append(inconcl, "corpus: "+clip(w.err.Error(), 400))
+				continue
+			}
+			cs := strings.TrimPrefix(sp.Name, "G:")
+			if why, bad := w.caseFail[cs]; bad {
+				// the tool's output for a well-formed corpus case is unusable: a violation by itself
+				dir := filepath.Join(verifDir, "replay", prop, "corpus-"+cs)
+				os.RemoveAll(dir)
+				copyTree(filepath.Join(w.dir, "failed_"+cs), dir)
+				os.WriteFile(filepath.Join(dir, "observed.txt"), []byte(why+"\n\n"+w.toolLog[cs]), 0644)
+				os.WriteFile(filepath.Join(dir, "model.json"), []byte(fmt.Sprintf("{\"harness\": \"corpus:%s\", \"failed\": \"corpus-case-generates-and-compiles\", \"inputs\": {}}", cs)), 0644)
+				fmt.Printf("VIOLATION property=%s replay=%s\n  %s\n", prop, dir, clip(why, 400))
+				corpusViolations++
+				continue
+			}
+			pkg := w.ld.SSA[corpusMod+"/"+cs]
+			if pkg == nil {
+				fmt.Fprintf(os.Stderr, "HARNESS-MISSING corpus case %s\n", cs)
+				return 2
+			}
+			var names []string
+			for n := range pkg.Members {
+				if strings.HasPrefix(n, "G_") {
+					names = append(names, n)
+				}
+			}
+			sort.Strings(names)
+			for _, n := range names {
+				jobs = append(jobs, job{sp, w.ld.Engine, pkg.Func(n), cs + "." + n})
+			}
+			continue
+		}
 		fn := hp.Func(sp.Name)
 		if fn == nil {
 			fmt.Fprintf(os.Stderr, "HARNESS-MISSING %s\n", sp.Name)
 			return 2
 		}
+		jobs = append(jobs, job{sp, ld.Engine, fn, sp.Name})
+	}
+	defer cleanupCorpus()
+	if corpusViolations > 0 {
+		rcCorpus = 1
+	}
+	var jobSpecs []*HarnessSpec
+	for _, jb := range jobs {
+		sp := jb.sp
+		jobSpecs = append(jobSpecs, sp)
 		opts := sym.HarnessOpts{Workers: 14, MapOrder: sp.MapOrder, CrossPath: sp.CrossPath}
 		if tier == "thorough" {
-			ld.Engine.TimeoutMs = 60000
+			jb.eng.TimeoutMs = 60000
 		}
+		jb.eng.SamplePath = ld.Engine.SamplePath
 		os.Setenv("VERIF_TIER", tier)
-		res := ld.Engine.Explore(fn, opts, &total)
+		res := jb.eng.Explore(jb.fn, opts, &total)
+		res.Name = jb.name
+		for i := range res.Violations {
+			res.Violations[i].Harness = jb.name
+		}
 		results = append(results, res)
 		printResult(res, &sym.SolverStats{})
 		if sp.Replay == "e2e-cli" {
@@ -320,17 +394,18 @@ func cmdCheck(prop, tier string) int {
 			}
 		}
 		for _, s := range res.Inconclusive {
-			inconcl = append(inconcl, sp.Name+": "+s)
+			inconcl = append(inconcl, jb.name+": "+s)
 		}
 		for _, s := range res.Vacuous {
-			inconcl = append(inconcl, sp.Name+": VACUOUS "+s)
+			inconcl = append(inconcl, jb.name+": VACUOUS "+s)
 		}
 		for _, l := range sp.MustReach {
 			if res.Reached[l] == 0 {
-				inconcl = append(inconcl, sp.Name+": VACUOUS label never reached: "+l)
+				inconcl = append(inconcl, jb.name+": VACUOUS label never reached: "+l)
 			}
 		}
 	}
+	specs = jobSpecs
 	// SSA inventories
 	var invRows []string
 	for _, kind := range inventoriesFor(prop) {
@@ -346,7 +421,7 @@ func cmdCheck(prop, tier string) int {
 		}
 	}
 	// replay + report violations (deduplicated by harness+label)
-	rc := 0
+	rc := rcCorpus
 	reported := map[string]bool{}
 	var replayNotes []string
 	for _, v := range violations {
